@@ -61,8 +61,8 @@ def strat(tier):
         solve = st.builds(lambda i, N, sv, mon, rep, ci: dict(op="solve", field=i, N=N, saves=sv, mon=mon, repeat=rep, cfl=ci), st.integers(0, 2), st.integers(1, 6),
                           st.one_of(st.none(), st.lists(gen.f(0.02, 0.98), min_size=1, max_size=4)), _monitors(kind), st.booleans(), cidx)
         restart = st.builds(lambda M, mon, ci: dict(op="restart", M=M, mon=mon, cfl=ci), st.integers(1, 5), _monitors(kind), cidx)
-        def mk(L, num, integ, cfl, cfl2, fields, ctor, calls):
-            d = dict(model=md, flux=fl, num=num, integ=integ, cfl=cfl, cfl2=cfl2, fields=fields, ctor_mon=ctor, calls=calls)
+        def mk(L, num, integ, cfl, cfl2, fields, ctor, calls, shared):
+            d = dict(model=md, flux=fl, num=num, integ=integ, cfl=cfl, cfl2=cfl2, fields=fields, ctor_mon=ctor, calls=calls, shared_stop=shared)
             if kind == "euler2d":
                 d["mesh2d"] = dict(nx=n[0], ny=n[1], lx=L, ly=1.0)
                 d["num"] = dict(name="extrapol2d1") if num["name"] != "extrapol3" else dict(name="extrapol2dk", k=1.0 / 3.0)
@@ -73,7 +73,8 @@ def strat(tier):
             return d
         return st.builds(mk,
                          gen.logf(-1, 1), st.sampled_from([dict(name="extrapol1"), dict(name="extrapol3"), dict(name="muscl", limiter="minmod")]),
-                         st.sampled_from(ex + im + ["gear", "gear"]), gen.f(0.1, 0.8), gen.f(0.1, 0.8), _fields(kind), st.booleans(), st.builds(lambda first, rest: [first] + rest, solve, st.lists(st.one_of(solve, solve, restart), min_size=1, max_size=4)))
+                         st.sampled_from(ex + im + ["gear", "gear"]), gen.f(0.1, 0.8), gen.f(0.1, 0.8), _fields(kind), st.booleans(), st.builds(lambda first, rest: [first] + rest, solve, st.lists(st.one_of(solve, solve, restart), min_size=1, max_size=4)),
+                         st.booleans())
     return _problem().flatmap(hist)
 
 
@@ -194,6 +195,14 @@ def check(case):
     chain = None
     ctor = {"ctorres": {"type": "residual", "frequency": 2}} if case["ctor_mon"] else None
     S = cases.build_integrator(integ, P.mesh, P.disc, monitors=ctor)
+    # a caller may keep ONE stop dictionary and update its 'maxit' entry between calls (shared_stop) or build a new one for every call
+    shared = {} if case.get("shared_stop") else None
+
+    def stopd(n):
+        if shared is None:
+            return {"maxit": n}
+        shared["maxit"] = n
+        return shared
     last = None        # (field index, total iterations, returned final field) of the last call when it returned the final state
     ncalls, rich = 0, 0
     labels = ["integ:" + integ, "model:" + md["name"], "implicit" if implicit else "explicit"]
@@ -212,7 +221,7 @@ def check(case):
                 raise Skip("trajectory leaves the admissible set")
             what = "call %d: restart(M=%d) after %d iterations from field %d (%s, cfl=%g)" % (ci, M, Ntot, i, integ, cfl)
             kw = {} if mon is None else {"monitors": mon}
-            res = S.restart(flast, cfl, stop={"maxit": M}, **kw)
+            res = S.restart(flast, cfl, stop=stopd(M), **kw)
             require(len(res) == 1, "restart-returns-final", "%s returns %d fields" % (what, len(res)))
             ref = states[Ntot + M]
             require(_eq(res[0], ref, xtol), "restart-equals-single-solve", "%s: state differs from one solve of %d iterations by %.3g (times %r / %r)" % (what, Ntot + M, _diff(res[0], ref), res[0].time, ref.time))
@@ -235,7 +244,7 @@ def check(case):
         kw = {} if mon is None else {"monitors": mon}
         if call["saves"] is None:
             what = "call %d: solve(field %d, maxit=%d%s) (%s, cfl=%g)" % (ci, i, N, ", monitors" if mon else "", integ, cfl)
-            res = S.solve(f0, cfl, stop={"maxit": N}, **kw)
+            res = S.solve(f0, cfl, stop=stopd(N), **kw)
             require(len(res) == 1, "solve-returns-final", "%s returns %d fields" % (what, len(res)))
             ref = states[N]
             require(_eq(res[0], ref, xtol), "solve-depends-only-on-inputs", "%s: the state differs from the one a fresh solver reaches from the same field by %.3g (times %r / %r)"
@@ -244,7 +253,7 @@ def check(case):
             require(res[0].it == N, "returned-it", "%s: the returned field carries it = %r, expected %d" % (what, res[0].it, N))
             _judge_monitors(P, md, mon, states[:N + 1], 0, what)
             if call["repeat"]:
-                res2 = S.solve(f0, cfl, stop={"maxit": N})
+                res2 = S.solve(f0, cfl, stop=stopd(N))
                 require(_eq(res2[0], res[0], None), "repeat-bit-identical", "%s repeated on the same solver object differs by %.3g" % (what, _diff(res2[0], res[0])))
                 labels.append("repeat")
                 res = res2
@@ -254,7 +263,10 @@ def check(case):
             tsave = sorted(set([states[0].time + fr * (T - states[0].time) for fr in call["saves"]]))
             tsave = [t for t in tsave if t < T] + [T]
             what = "call %d: solve(field %d, tsave=%d times up to the time of iteration %d%s) (%s, cfl=%g)" % (ci, i, len(tsave), N, ", monitors" if mon else "", integ, cfl)
-            res = S.solve(f0, cfl, tsave, **kw)
+            if shared is not None:
+                res = S.solve(f0, cfl, tsave, stop=stopd(10 ** 6), **kw)      # an iteration limit that is never reached: the run ends at tsave[-1]
+            else:
+                res = S.solve(f0, cfl, tsave, **kw)
             require(len(res) == len(tsave), "snapshots-returned", "%s returns %d snapshots" % (what, len(res)))
             require(S.nit() == N, "saves-iteration-count", "%s: nit() = %d" % (what, S.nit()))
             # same call without the intermediate save times: model (fresh object) and the same object
@@ -274,6 +286,8 @@ def check(case):
     labels.append("calls:%d" % min(ncalls, 3))
     if case["ctor_mon"]:
         labels.append("ctor-monitor")
+    if shared is not None:
+        labels.append("shared-stop-dict")
     return dict(nontrivial=bool(ncalls >= 2 and rich >= 1), labels=sorted(set(labels)))
 
 
